@@ -3,6 +3,7 @@
 -/
 import Kvass.Pins.Coord
 import Kvass.Proofs.CoordKeep
+import Kvass.Proofs.CoordProv
 
 namespace Kvass.Props.C08
 open Kvass Kvass.Coord Kvass.Spec
@@ -74,5 +75,29 @@ theorem C08_noUpdates (swr : Swr) (sc : Sched) (inp : Input) :
     intro q hq
     have := getInfo_noPost p q hq
     simp [this.1, this.2]
+
+/-- **C08 (d)**: targets a reachable shard reports scraping are not assigned a second time
+    elsewhere: a target that a shard is newly told to scrape although some shard reports it is a
+    move out of an *in-sync* shard — for every schedule and input. -/
+theorem C08_noSecondAssign (swr : Swr) (sc : Sched) (inp : Input) :
+    C08.noSecondAssign inp (Obs.ofOutcome (cycle swr sc inp)) = true :=
+  noSecondAssign_cycle swr sc inp
+
+/-- **C08 (e)**: a shard that is not in sync is never chosen as destination: whenever an in-sync
+    shard is told to turn a normal copy into an in-transfer one, another in-sync shard holds the
+    target in normal state after the cycle — for every schedule and every input whose reports have
+    distinct keys (JSON maps). -/
+theorem C08_dstInSync (swr : Swr) (sc : Sched) (inp : Input)
+    (hnd : ∀ p ∈ inp.probes, (reported p).keys.Nodup) :
+    C08.dstInSync inp (Obs.ofOutcome (cycle swr sc inp)) = true :=
+  dstInSync_cycle swr sc inp hnd
+
+/-- **C08**: the monitored predicate as a whole -/
+theorem C08_ok (swr : Swr) (sc : Sched) (inp : Input)
+    (hnd : ∀ p ∈ inp.probes, (reported p).keys.Nodup) :
+    C08.ok inp (Obs.ofOutcome (cycle swr sc inp)) = true := by
+  unfold C08.ok
+  rw [C08_leftAlone, C08_noNeedlessPush, C08_noUpdates, C08_noSecondAssign, C08_dstInSync swr sc inp hnd]
+  rfl
 
 end Kvass.Props.C08
